@@ -12,6 +12,7 @@ import (
 	"net/http"
 	"net/http/httptest"
 	"os"
+	"reflect"
 	"regexp"
 	"runtime/debug"
 	"strings"
@@ -87,6 +88,10 @@ func c06Zoo() []zooItem {
 	var nilIface any
 	var nilErr *zooErr
 	big := strings.Repeat("a", 1<<16)
+	return append(c06HandZoo(nilIface, nilErr, pi, ppi, psv, st, pst, ppst, big), c06PtrChains()...)
+}
+
+func c06HandZoo(nilIface any, nilErr *zooErr, pi *int, ppi **int, psv *string, st zooStruct, pst *zooStruct, ppst **zooStruct, big string) []zooItem {
 	return []zooItem{
 		{"untyped nil", nil},
 		{"(*int)(nil)", (*int)(nil)}, {"(*string)(nil)", (*string)(nil)}, {"(*zooStruct)(nil)", (*zooStruct)(nil)},
@@ -132,6 +137,45 @@ func c06Zoo() []zooItem {
 		{"zero time", time.Time{}}, {"far future", time.Date(99999, 1, 1, 0, 0, 0, 0, time.UTC)}, {"*time(nil)", (*time.Time)(nil)}, {"duration", time.Second},
 		{"true", true}, {"int", 42}, {"string", "hello"},
 	}
+}
+
+// c06PtrChains: every pointer chain of depth 1..3 over each base value, complete or with a nil pointer
+// at any one level (level 1 = innermost) — "pointers of any depth", generated instead of hand-picked.
+func c06PtrChains() []zooItem {
+	bases := []zooItem{
+		{"int", 7}, {"string", "s"}, {"map[string]any", map[string]any{"a": "x", "b": 2}}, {"named map", zooMSA{"a": "x", "b": 2}},
+		{"map[string]string", map[string]string{"a": "x", "b": "2"}}, {"struct", zooStruct{"x", 1}}, {"[]any", []any{"a", 1}}, {"time", time.Unix(0, 0).UTC()},
+	}
+	var out []zooItem
+	for _, b := range bases {
+		for depth := 1; depth <= 3; depth++ {
+			for nilAt := 0; nilAt <= depth; nilAt++ {
+				var v reflect.Value
+				lvl := 0
+				if nilAt == 0 {
+					v = reflect.ValueOf(b.v)
+				} else {
+					t := reflect.TypeOf(b.v)
+					for i := 0; i < nilAt; i++ {
+						t = reflect.PointerTo(t)
+					}
+					v = reflect.Zero(t)
+					lvl = nilAt
+				}
+				for ; lvl < depth; lvl++ {
+					p := reflect.New(v.Type())
+					p.Elem().Set(v)
+					v = p
+				}
+				name := strings.Repeat("*", depth) + b.name
+				if nilAt > 0 {
+					name += fmt.Sprintf(" (nil at level %d)", nilAt)
+				}
+				out = append(out, zooItem{"chain " + name, v.Interface()})
+			}
+		}
+	}
+	return out
 }
 
 type c06Target struct {
